@@ -189,6 +189,9 @@ def drive_tb(case, workdir):
     import aiu_trace_analyzer.logger as aiulog
     aiulog.loglevel = 0
     _clean(workdir)
+    if case.get("json_dir"):        # the output DIRECTORY has ".json" in its name (the target's file name is unchanged)
+        workdir = os.path.join(workdir, "run1.json.d")
+        os.makedirs(workdir)
     path = os.path.join(workdir, case["target"])
     try:
         with quiet():
@@ -276,7 +279,7 @@ def gen_tb_ranks(r, big=False):
     r.shuffle(devices)
     return {"events": events, "devices": devices, "save": r.random() < 0.7,
             "target": r.choice(TARGETS_PLAIN) if r.random() < 0.7 else r.choice(TARGETS_ODD),
-            "ranks": ids, "with_m1": with_m1}
+            "ranks": ids, "with_m1": with_m1, "json_dir": r.random() < 0.1}
 
 
 def gen_tb_malformed(r):
